@@ -60,7 +60,7 @@ def meta(tier):
                 'origins, zone switch, alignment gap, #mute/#unmute, zero-length fill, included file, label, a line emitting 00 and ff '
                 'bytes) up to the depth bound that the reference accepts, under address widths 8/10/12/16/24/32 (two of them with '
                 'predefined data blocks, one with two different blocks); per program 6 executions: two images (fill 00 / ff) giving the exact address->byte map, and '
-                'the four formats, each decoded independently, plus two images of the window that starts inside the first multi-byte statement (-s), which must hold the same bytes from there on, and the listing / hex dump / Intel HEX requested together with that window, which must still agree with the image from the window start on; the listing rows are also compared with the reference lines '
+                'the four formats, each decoded independently, plus two images of the window that starts inside the first multi-byte statement (-s), which must hold the same bytes from there on, and the listing / hex dump / Intel HEX requested together with that window, which must still agree with the image from the window start on; one more run requests a format (rotating) with --no-binary, which must describe the same memory; the listing rows are also compared with the reference lines '
                 '(each statement once, its address, its bytes, nothing for muted lines); non-trivial = program with a gap, a muted '
                 'byte or a line longer than 6 bytes; plus (16-bit) every history up to depth 5 (thorough 6) over {#mute, #unmute, a byte, an include of a plain file, of a file that unmutes, of a file that mutes}: '
                 'mutes are counted across include boundaries in both directions; plus the repository\'s 26 example programs under their own definitions (formats vs image, with and without a window); states = distinct memory maps',
@@ -214,6 +214,7 @@ def corpus_programs(acc, idx, n):
         msg = check_formats(spec, outs)
         if msg:
             acc.violation(cases, spec, f'example program {prog[0]}: {msg}', outs)
+        check_no_binary(acc, lambda f: corpus.case_for(prog, pretty=f, binary=False), outs, f'example program {prog[0]}')
         acc.state(('corpus', prog[0]))
         for f in FORMATS:
             acc.judge(clause=f, nontrivial_key=('corpus', prog[0], f))
@@ -273,6 +274,7 @@ def examine(acc, isa, params, bits, h, files, sample):
     msg = check_formats(spec, outs)
     if msg:
         acc.violation(cases, spec, msg, outs)
+    check_no_binary(acc, lambda f: Case(isa, text, pretty=f, binary=False), outs, 'program ' + repr(h))
     gap = bool(ref.mem) and (len(ref.mem) != max(ref.mem) - min(ref.mem) + 1)
     nt = gap or bool(ref.muted_mem) or any(l.size > 6 for l in ref.lines)
     for f in FORMATS:
@@ -282,5 +284,49 @@ def examine(acc, isa, params, bits, h, files, sample):
         acc.sample({'address_bits': bits, 'program': text, 'memory_map': {hex(a): b for a, b in sorted(ref.mem.items())}})
 
 
+_NBF = [0]
+
+
+def check_no_binary(acc, make_case, image_outs, what):
+    """One format (rotating) requested with --no-binary: it describes the memory the image of the same program holds."""
+    mem = truth_from_images(image_outs[0].image, image_outs[1].image) if all(o.status == 'OK' for o in image_outs[:2]) else None
+    if mem is None:
+        return
+    _NBF[0] += 1
+    fmt = FORMATS[_NBF[0] % len(FORMATS)]
+    case = make_case(fmt)
+    out = acc.run(case)
+    acc.transition()
+    spec = {'type': 'no-binary-format', 'format': fmt, 'memory': {str(a): b for a, b in sorted(mem.items())} if len(mem) <= 64 else None}
+    msg = judge_no_binary(fmt, out, mem)
+    if msg:
+        spec['memory'] = {str(a): b for a, b in sorted(mem.items())}
+        acc.violation([case], spec, f'{what}: {msg}', [out])
+
+
+def judge_no_binary(fmt, out, mem):
+    if out.status != 'OK':
+        return f'{fmt} with --no-binary: {out.status} {out.detail}'
+    try:
+        if fmt == 'listing':
+            got, _ = F.decode_listing(out.pretty)
+        elif fmt == 'hex':
+            got = F.decode_hex_dump(out.pretty)
+        elif fmt == 'intel_hex':
+            got = F.decode_intel_hex(out.pretty)
+        else:
+            got = F.decode_minhex(out.pretty, first_address=min(mem) if mem else None)
+    except F.FormatError as e:
+        return f'{fmt} with --no-binary: {e}'
+    if got != mem:
+        bad = sorted(a for a in set(got) | set(mem) if got.get(a) != mem.get(a))[:4]
+        return (f'{fmt} requested with --no-binary describes different memory than the image of the same program at {[hex(a) for a in bad]}: '
+                f'{fmt} {[got.get(a) for a in bad]}, image {[mem.get(a) for a in bad]}')
+    return None
+
+
 def judge(spec, outcomes):
+    if spec.get('type') == 'no-binary-format':
+        mem = {int(a): b for a, b in (spec.get('memory') or {}).items()}
+        return judge_no_binary(spec['format'], outcomes[0], mem)
     return check_formats(spec, outcomes)
